@@ -448,6 +448,9 @@ def run_program(prog, root, lib, k):
             else:
                 while prof.enable_count > 0:
                     prof.disable_by_count()
+                # a program aborted inside a plain enable()/disable() window leaves the profiler on (count 0): switch
+                # it off so that the next program of this worker starts from a clean interpreter
+                prof.disable()
         if phase == 'A':
             result['errA'] = err
             result['ops'] = rec.ops
